@@ -53,6 +53,47 @@ def _c_int(value: int, unsigned: bool):
     return np.int64(value)
 
 
+_SIMPLE_ESCAPES = {
+    "'": 39,
+    '"': 34,
+    "?": 63,
+    "\\": 92,
+    "a": 7,
+    "b": 8,
+    "f": 12,
+    "n": 10,
+    "r": 13,
+    "t": 9,
+    "v": 11,
+}
+
+# An escape sequence with more than one character after the backslash:
+# up to three octal digits, or x followed by hexadecimal digits.
+_NUMERIC_ESCAPE = re.compile(r"\\(?:[0-7]{1,3}|x[0-9a-fA-F]+)")
+
+
+def _character_value(token: str) -> int:
+    """
+    Return the value of a character constant (spelled without its quotes),
+    decoding simple, octal and hexadecimal escape sequences. An escape
+    sequence has the range of a signed char, as for GCC and Clang on x86.
+    """
+    if len(token) > 1 and token[0] == "\\":
+        if token[1:] in _SIMPLE_ESCAPES:
+            value = _SIMPLE_ESCAPES[token[1:]]
+        elif _NUMERIC_ESCAPE.fullmatch(token):
+            if token[1] == "x":
+                value = int(token[2:], 16)
+            else:
+                value = int(token[1:], 8)
+        else:
+            raise ValueError(f"Unknown escape sequence: {token}")
+        if value > 255:
+            raise ValueError(f"Escape sequence out of range: {token}")
+        return value - 256 if value >= 128 else value
+    return ord(token)
+
+
 def _is_unsigned(value) -> bool:
     return isinstance(value, np.uint64)
 
@@ -295,9 +336,15 @@ class Lexer:
         try:
             self.match("'")
 
-            # A character constant may be an escaped sequence
-            # We assume a single alpha-numerical character or space
-            if self.read() == "\\" and self.read(2).isprintable():
+            # A character constant may be an escape sequence: a backslash
+            # followed by up to three octal digits, by x and hexadecimal
+            # digits, or by a single character.
+            # Otherwise, we assume a single printable character.
+            escape = _NUMERIC_ESCAPE.match(self.string, self.pos)
+            if escape:
+                value = escape.group(0)
+                self.pos = escape.end()
+            elif self.read() == "\\" and self.read(2).isprintable():
                 value = self.read(2)
                 self.pos += 2
             elif self.read().isprintable():
@@ -2073,7 +2120,7 @@ class ExpressionEvaluator(Parser):
         # Convert from character literals to integer value.
         try:
             constant = self.match_type(CharacterConstant)
-            return np.int64(ord(constant.token))
+            return np.int64(_character_value(constant.token))
         except ParseError:
             self.pos = initial_pos
 
